@@ -244,13 +244,13 @@ def check(sp, fault):
                  if n.name != REF and id(n) not in holders and not any(id(a) in holders for a in n.get_ancestry())
                  and not any(d.name == REF for d in treegen.nodes(n))]
     try:
-        with time_limit(10):
+        with time_limit(30):
             references.expand(root)
         raised = None
     except ValueError as e:
         raised = e
     except CaseTimeout:
-        raise Violation("expand-does-not-terminate", "references.expand did not return within the 10 s watchdog "
+        raise Violation("expand-does-not-terminate", "references.expand did not return within the 30 s watchdog "
                         "(normal cost: milliseconds)", case)
     except Exception as e:  # noqa
         raise Violation("expand-raises-other:" + type(e).__name__, f"{type(e).__name__}: {e}", case)
